@@ -285,6 +285,7 @@ package file
 //@   trusted
 //@   modifies o
 //@   ensures o.hdr == old(o.hdr) && o.fl == old(o.fl) && (old(odsCacheOK(o)) ==> odsCacheOK(o))
+//@   ensures err == nil ==> len(result0) == o.hdr.squareSize / 2
 
 // (erasure-codes the opposite axes in goroutines; the half it returns is never marked parity)
 //@ func (square).computeAxisHalf
@@ -301,7 +302,7 @@ package file
 //@   modifies o
 //@   ensures o.hdr == old(o.hdr) && o.fl == old(o.fl) && odsCacheOK(o)
 //@   ensures err == nil ==> !result0.IsParity
-//@   ensures err == nil && axisIdx < o.hdr.squareSize / 2 ==> len(result0.Shares) == o.hdr.squareSize / 2
+//@   ensures err == nil ==> len(result0.Shares) == o.hdr.squareSize / 2
 //@   ensures err == nil && axisIdx < o.hdr.squareSize / 2 && axisType == 0 ==> forall i int :: 0 <= i && i < o.hdr.squareSize / 2 ==> result0.Shares[i] == cellOf(iface(o.fl), o.hdr.OffsetWithRoots(), o.hdr.squareSize / 2, axisIdx, i)
 //@   ensures err == nil && axisIdx < o.hdr.squareSize / 2 && axisType != 0 ==> forall i int :: 0 <= i && i < o.hdr.squareSize / 2 ==> result0.Shares[i] == cellOf(iface(o.fl), o.hdr.OffsetWithRoots(), o.hdr.squareSize / 2, i, axisIdx)
 
@@ -330,8 +331,9 @@ package file
 //@   requires odsq4.ods.hdr.OffsetWithRoots() >= 0 && fsize(iface(odsq4.ods.fl)) >= odsq4.ods.hdr.OffsetWithRoots() && mod(fsize(iface(odsq4.ods.fl)) - odsq4.ods.hdr.OffsetWithRoots(), 512) == 0
 //@   modifies odsq4.ods
 //@   ensures odsq4.ods == old(odsq4.ods) && odsq4.ods.hdr == old(odsq4.ods.hdr) && odsq4.ods.fl == old(odsq4.ods.fl) && odsCacheOK(odsq4.ods)
-//@   ensures err == nil && result0.IsParity ==> axisIdx >= odsq4.ods.hdr.squareSize / 2 && len(result0.Shares) == odsq4.ods.hdr.squareSize / 2
-//@   ensures err == nil && axisIdx < odsq4.ods.hdr.squareSize / 2 ==> !result0.IsParity && len(result0.Shares) == odsq4.ods.hdr.squareSize / 2
+//@   ensures err == nil && result0.IsParity ==> axisIdx >= odsq4.ods.hdr.squareSize / 2
+//@   ensures err == nil ==> len(result0.Shares) == odsq4.ods.hdr.squareSize / 2
+//@   ensures err == nil && axisIdx < odsq4.ods.hdr.squareSize / 2 ==> !result0.IsParity
 //@   ensures err == nil && axisIdx < odsq4.ods.hdr.squareSize / 2 && axisType == 0 ==> forall i int :: 0 <= i && i < odsq4.ods.hdr.squareSize / 2 ==> result0.Shares[i] == cellOf(iface(odsq4.ods.fl), odsq4.ods.hdr.OffsetWithRoots(), odsq4.ods.hdr.squareSize / 2, axisIdx, i)
 //@   ensures err == nil && axisIdx < odsq4.ods.hdr.squareSize / 2 && axisType != 0 ==> forall i int :: 0 <= i && i < odsq4.ods.hdr.squareSize / 2 ==> result0.Shares[i] == cellOf(iface(odsq4.ods.fl), odsq4.ods.hdr.OffsetWithRoots(), odsq4.ods.hdr.squareSize / 2, i, axisIdx)
 
@@ -353,3 +355,35 @@ package file
 //@   loop 1: invariant 0 <= fromCoords.Row && toCoords.Row < odsSize && odsSize == o.hdr.squareSize / 2
 //@   loop 1: invariant forall j int :: 0 <= j && j < idx ==> len(shares[j]) == 2 * odsSize
 //@   loop 1: invariant 0 <= fromCoords.Col && fromCoords.Col < odsSize && 0 <= toCoords.Col && toCoords.Col < odsSize && fromCoords.Row * odsSize + fromCoords.Col == from && toCoords.Row * odsSize + toCoords.Col == to - 1
+
+// C05: samples served from the files. Whichever axis is read to build the sample - the row, or for the
+// lower-left quadrant the column - the axis asked from the accessor is the one through the requested
+// cell, and the sample builder is given that axis's type and the cell's coordinates in that axis's
+// frame (axis index, position on the axis).
+//@ func (*ODSQ4).Sample
+//@   property C05
+//@   noframe
+//@   requires odsq4 != nil && odsq4.ods != nil && odsq4.ods.hdr != nil && odsq4.ods.hdr.shareSize == 512 && odsq4.ods.hdr.squareSize >= 2 && mod(odsq4.ods.hdr.squareSize, 2) == 0
+//@   requires 0 <= idx.Row && idx.Row < odsq4.ods.hdr.squareSize && 0 <= idx.Col && idx.Col < odsq4.ods.hdr.squareSize && odsCacheOK(odsq4.ods)
+//@   requires odsq4.ods.hdr.OffsetWithRoots() >= 0 && fsize(iface(odsq4.ods.fl)) >= odsq4.ods.hdr.OffsetWithRoots() && mod(fsize(iface(odsq4.ods.fl)) - odsq4.ods.hdr.OffsetWithRoots(), 512) == 0
+//@   callpre ODSQ4).AxisHalf: ($arg2 == rsmt2d.Row && $arg3 == idx.Row) || ($arg2 == rsmt2d.Col && $arg3 == idx.Col)
+//@   callpre AxisHalf).Extended: $arg0 == half
+//@   callpre shwap.SampleFromShares: $arg0 == shares && (($arg1 == rsmt2d.Row && $arg2.Row == idx.Row && $arg2.Col == idx.Col) || ($arg1 == rsmt2d.Col && $arg2.Row == idx.Col && $arg2.Col == idx.Row))
+
+//@ func (*ODS).axis
+//@   property C05
+//@   requires o != nil && o.hdr != nil && o.hdr.shareSize == 512 && o.hdr.squareSize >= 2 && 0 <= axisIdx && odsCacheOK(o)
+//@   requires o.hdr.OffsetWithRoots() >= 0 && fsize(iface(o.fl)) >= o.hdr.OffsetWithRoots() && mod(fsize(iface(o.fl)) - o.hdr.OffsetWithRoots(), 512) == 0
+//@   modifies o
+//@   ensures o.hdr == old(o.hdr) && o.fl == old(o.fl) && odsCacheOK(o)
+//@   ensures err == nil ==> len(result0) == 2 * (o.hdr.squareSize / 2)
+
+//@ func (*ODS).Sample
+//@   property C05
+//@   noframe
+//@   requires o != nil && o.hdr != nil && o.hdr.shareSize == 512 && o.hdr.squareSize >= 2 && mod(o.hdr.squareSize, 2) == 0 && odsCacheOK(o)
+//@   requires 0 <= idx.Row && idx.Row < o.hdr.squareSize && 0 <= idx.Col && idx.Col < o.hdr.squareSize
+//@   requires o.hdr.OffsetWithRoots() >= 0 && fsize(iface(o.fl)) >= o.hdr.OffsetWithRoots() && mod(fsize(iface(o.fl)) - o.hdr.OffsetWithRoots(), 512) == 0
+//@   callpre ODS).axis: ($arg2 == rsmt2d.Row && $arg3 == idx.Row) || ($arg2 == rsmt2d.Col && $arg3 == idx.Col)
+//@   callpre shwap.SampleFromShares: $arg0 == axis && (($arg1 == rsmt2d.Row && $arg2.Row == idx.Row && $arg2.Col == idx.Col) || ($arg1 == rsmt2d.Col && $arg2.Row == idx.Col && $arg2.Col == idx.Row))
+//@   checks err == nil ==> axisType == rsmt2d.Row || axisType == rsmt2d.Col
